@@ -406,7 +406,7 @@ def bounded_strategy(draw, ctx):
     # (cheap: they never reach the 10^4-step run on a tree that rejects them). Damping on both sides of g dt = 2,
     # since an "overdamped poles need no w0 dt rule" shortcut is a plausible wrong refinement of that guard.
     if draw(st.sampled_from(range(8))) == 0:
-        poles[0] = {"type": "lorentz", "w": draw(st.sampled_from([2.0, 2.6])),
+        poles[0] = {"type": "lorentz", "w": draw(st.sampled_from([2.001, 2.6])),
                     "g": draw(st.sampled_from([0.0, 0.5, 2.0, 3.0])), "de": 1.0}
     eps_axes = None
     if draw(st.sampled_from(range(8))) == 0:
@@ -453,6 +453,8 @@ def body_bounded(ctx, case):
            "poles": case["poles"]}
     if case.get("eps_inf_axes"):
         ctx.classify("eps_inf_axis<=0")
+    if any(p["type"] == "lorentz" and abs(p["w"] - 2.0) < 1e-6 for p in case["poles"]):
+        raise Skip()  # w0*dt == 2 up to rounding: whether the documented "< 2" rule accepts it is a float coin toss
     beyond_pole_rule = any(p["type"] == "lorentz" and p["w"] >= 2.0 for p in case["poles"])
     if beyond_pole_rule:
         load, margin = float("inf"), float("-inf")
